@@ -40,7 +40,8 @@ enum ThreadCfg {
     Fast(bool),
     /// `set_callback(|| b)`: replaces the freshness callback
     Cb(bool),
-    Acq { cb: bool, fails: bool, script: Vec<Op> },
+    /// fails: 0 = the creator returns Ok, 1 = returns Err, 2 = panics
+    Acq { cb: bool, fails: u8, script: Vec<Op> },
 }
 
 #[derive(Clone, Debug)]
@@ -81,7 +82,7 @@ fn parse_cfg(s: &str) -> Option<Cfg> {
                     _ => return None,
                 }
             }
-            threads.push(ThreadCfg::Acq { cb: b[2] == b'1', fails: b[4] == b'1', script });
+            threads.push(ThreadCfg::Acq { cb: b[2] == b'1', fails: b[4] - b'0', script });
         }
     }
     Some(Cfg { fast: f == "f1", threads })
@@ -153,7 +154,7 @@ impl Sched {
 }
 
 thread_local! {
-    static CTX: RefCell<Option<(Arc<Sched>, usize, bool, bool, Vec<Op>)>> = const { RefCell::new(None) };
+    static CTX: RefCell<Option<(Arc<Sched>, usize, bool, u8, Vec<Op>)>> = const { RefCell::new(None) };
 }
 
 thread_local! {
@@ -198,7 +199,7 @@ struct Obs {
 }
 
 fn step_timeout() -> Duration {
-    Duration::from_millis(std::env::var("C20_TIMEOUT_MS").ok().and_then(|s| s.parse().ok()).unwrap_or(1500))
+    Duration::from_millis(std::env::var("C20_TIMEOUT_MS").ok().and_then(|s| s.parse().ok()).unwrap_or(3000))
 }
 
 /// run one schedule on the real reloader; returns the canonical observation line
@@ -220,12 +221,12 @@ fn run_schedule(cfg: &Cfg, sched_s: &str) -> String {
             let (fails, script) = match &ctx {
                 Some((s, _, _, fails, script)) => {
                     let k = s.current_step();
-                    obs.lock().unwrap().builds.push(format!("{}@{}{}", g, k, if *fails { "f" } else { "" }));
+                    obs.lock().unwrap().builds.push(format!("{}@{}{}", g, k, ["", "f", "p"][(*fails).min(2) as usize]));
                     (*fails, script.clone())
                 }
                 None => {
                     obs.lock().unwrap().notes.push("creator-on-foreign-thread".into());
-                    (false, vec![])
+                    (0, vec![])
                 }
             };
             for op in script {
@@ -234,7 +235,10 @@ fn run_schedule(cfg: &Cfg, sched_s: &str) -> String {
                     Op::SetFast(b) => notifier.set_fast_reload(b),
                 }
             }
-            if fails {
+            if fails == 2 {
+                panic!("creator panicked (scripted)");
+            }
+            if fails == 1 {
                 return Err(Error::new(ErrorKind::InvalidOperation, "creator failed (scripted)"));
             }
             let mut env = Environment::new();
@@ -269,10 +273,12 @@ fn run_schedule(cfg: &Cfg, sched_s: &str) -> String {
         let notifier = reloader.notifier();
         let gen = gen.clone();
         let kept = kept.clone();
+        let any_panics = cfg.threads.iter().any(|t| matches!(t, ThreadCfg::Acq { fails: 2, .. }));
+        let t2 = t.clone();
         handles.push(std::thread::spawn(move || {
             let (cb, fails, script) = match &t {
                 ThreadCfg::Acq { cb, fails, script } => (*cb, *fails, script.clone()),
-                _ => (false, false, vec![]),
+                _ => (false, 0, vec![]),
             };
             CTX.with(|c| *c.borrow_mut() = Some((sched.clone(), i, cb, fails, script)));
             let r = guarded(|| match t {
@@ -319,7 +325,16 @@ fn run_schedule(cfg: &Cfg, sched_s: &str) -> String {
                 },
             });
             if let Err(msg) = r {
-                obs.lock().unwrap().notes.push(format!("panic{}:{}", i, msg.replace(['\t', '\n', '|'], " ")));
+                // a scripted creator panic, or the poisoned cached_env mutex afterwards (both are
+                // outcomes the model knows); anything else is reported
+                let expected = msg.contains("creator panicked (scripted)") || (any_panics && msg.contains("PoisonError"));
+                let mut o = obs.lock().unwrap();
+                if matches!(t2, ThreadCfg::Acq { .. }) && o.acq[i].is_none() {
+                    o.acq[i] = Some("panic".into());
+                }
+                if !expected {
+                    o.notes.push(format!("panic{}:{}", i, msg.replace(['\t', '\n', '|'], " ")));
+                }
             }
             CTX.with(|c| *c.borrow_mut() = None);
             sched.done(i);
@@ -332,7 +347,8 @@ fn run_schedule(cfg: &Cfg, sched_s: &str) -> String {
     // start-up: every thread runs to its first yield point
     {
         let mut g = sched.m.lock().unwrap();
-        let deadline = Instant::now() + timeout;
+        // (threads only run to their first hook here: generous, a loaded machine starts threads slowly)
+        let deadline = Instant::now() + timeout * 4;
         while g.at.iter().any(|a| a.is_none()) {
             let now = Instant::now();
             if now >= deadline {
@@ -469,6 +485,10 @@ fn gen_cfgs(tier: &str) {
                 }
             }
         }
+        // third creator outcome: it panics (the unwinding poisons the cached_env mutex)
+        for script in ["-", "r"] {
+            variant_store.push(format!("c{}x2{}", cb, script));
+        }
     }
     let variants: Vec<&str> = variant_store.iter().map(|s| s.as_str()).collect();
     let mk = |f: u8, e: u8, acqs: &[&str], nr: usize| {
@@ -496,7 +516,7 @@ fn gen_cfgs(tier: &str) {
         for v in variants.iter().copied() {
             for nr in 0..=2usize {
                 let e = if (tier == "thorough" && v.len() < 7) || nr < 2 { 0 } else { 1 };
-                let cap = if tier == "thorough" { 30000 } else { 800 };
+                let cap = if tier == "thorough" { 30000 } else { 350 };
                 writeln!(out, "{} upto {} {}", mk(f, e, &[v], nr), cap, rng.next() >> 16).unwrap();
                 writeln!(out, "{} upto {} {}", mk(f, e, &[v, plain], nr), cap, rng.next() >> 16).unwrap();
                 writeln!(out, "{} upto {} {}", mk(f, e, &[plain, v], nr), cap, rng.next() >> 16).unwrap();
@@ -513,7 +533,7 @@ fn gen_cfgs(tier: &str) {
                     let mut t = vec![plain; 3];
                     t[pos] = v;
                     for nr in 0..=1usize {
-                        writeln!(out, "{} upto 300 {}", mk(f, 1, &t, nr), rng.next() >> 16).unwrap();
+                        writeln!(out, "{} upto 200 {}", mk(f, 1, &t, nr), rng.next() >> 16).unwrap();
                     }
                 }
             }
@@ -534,15 +554,15 @@ fn gen_cfgs(tier: &str) {
                     c.push('.');
                     c.push_str(x);
                 }
-                writeln!(out, "{} upto {} {}", c, if tier == "thorough" { 8000 } else { 200 }, rng.next() >> 16).unwrap();
+                writeln!(out, "{} upto {} {}", c, if tier == "thorough" { 8000 } else { 120 }, rng.next() >> 16).unwrap();
             }
-            for acqs in [vec![plain, plain, plain], vec![plain, "c1x1r", plain], vec![plain, "c1x1-", plain], vec![plain, "c0x1-", plain]] {
+            for acqs in [vec![plain, plain, plain], vec![plain, "c1x1r", plain], vec![plain, "c1x1-", plain], vec![plain, "c0x1-", plain], vec![plain, "c0x2-", plain]] {
                 let mut c = mk(f, 1, &acqs, 0);
                 for x in &extra {
                     c.push('.');
                     c.push_str(x);
                 }
-                writeln!(out, "{} upto {} {}", c, if tier == "thorough" { 8000 } else { 200 }, rng.next() >> 16).unwrap();
+                writeln!(out, "{} upto {} {}", c, if tier == "thorough" { 8000 } else { 120 }, rng.next() >> 16).unwrap();
             }
         }
     }
@@ -569,6 +589,9 @@ fn gen_cfgs(tier: &str) {
         ["c0x0-", "c1x1-", "c1x0r"],
         ["c1x1r", "c0x1-", "c0x0-"],
         ["c0x0t", "c1x1r", "c0x0-"],
+        ["c0x2-", "c0x0-", "c0x0-"],
+        ["c0x0-", "c0x2r", "c0x1-"],
+        ["c0x1-", "c0x2-", "c0x0-"],
     ] {
         tuples.push(t.to_vec());
     }
@@ -591,8 +614,8 @@ fn gen_cfgs(tier: &str) {
         for f in 0..2u8 {
             for t in &tuples {
                 let nr = 1 + rng.below(3) as usize;
-                writeln!(out, "{} sample 17 {}", mk(f, 0, t, 3), rng.next() >> 16).unwrap();
-                writeln!(out, "{} sample 17 {}", mk(f, 1, t, nr), rng.next() >> 16).unwrap();
+                writeln!(out, "{} sample 12 {}", mk(f, 0, t, 3), rng.next() >> 16).unwrap();
+                writeln!(out, "{} sample 12 {}", mk(f, 1, t, nr), rng.next() >> 16).unwrap();
             }
         }
     }
@@ -701,14 +724,30 @@ fn main() {
             let stdin = std::io::stdin();
             let out = std::io::stdout();
             let mut out = std::io::BufWriter::new(out.lock());
+            // every time-out costs seconds: when the real code diverges systematically (a mutant
+            // that blocks where the model does not) stop after a few and say so
+            // (8 within 40 consecutive schedules: isolated time-outs on a loaded machine do not count)
+            let mut recent: std::collections::VecDeque<bool> = Default::default();
+            let mut give_up = false;
             for line in stdin.lock().lines() {
                 let line = line.unwrap();
                 let mut f = line.split('\t');
                 let (Some(c), Some(s)) = (f.next(), f.next()) else { continue };
-                let res = match parse_cfg(c) {
-                    Some(cfg) => run_schedule(&cfg, s),
-                    None => "bad:cfg".to_string(),
+                let res = if give_up {
+                    "bad:skipped-after-8-timeouts".to_string()
+                } else {
+                    match parse_cfg(c) {
+                        Some(cfg) => run_schedule(&cfg, s),
+                        None => "bad:cfg".to_string(),
+                    }
                 };
+                recent.push_back(res.starts_with("bad:timeout"));
+                if recent.len() > 40 {
+                    recent.pop_front();
+                }
+                if recent.iter().filter(|x| **x).count() >= 8 {
+                    give_up = true;
+                }
                 writeln!(out, "{}\t{}\t{}", c, s, res).unwrap();
             }
         }
